@@ -148,13 +148,39 @@ impl Property for C09 {
         p.corrupt_pct = 50;
         p.resizer_pct = 70;
         p.operator_pct = 60;
-        gen::trace("C09", seed, index, &p)
+        let mut t = gen::trace("C09", seed, index, &p);
+        if t.bytes_total() <= 40 && r.chance(1, 4) {
+            // fault-point enumeration: one more resize at EVERY operation boundary
+            let g = gen::Geo { cols: t.columns, lines: t.lines };
+            let (l, c) = gen::resize_target(&mut r, g, g);
+            t.extra = vec![u32::MAX, l, c];
+        }
+        t
     }
     fn check(&self, trace: &Trace, cov: &mut Coverage) -> Result<(), Violation> {
         let big = trace.columns * trace.lines > 600;
+        let one: Vec<(u64, Op)> = match trace.extra.as_slice() {
+            [1, k, l, c] if *l >= 1 && *c >= 1 => vec![(*k as u64, Op::Resize(Some(*l), Some(*c)))],
+            _ => vec![],
+        };
         let mut obs = Obs09 { cov, big };
-        let stats = exec::run(trace, &mut obs)?;
+        let stats = exec::run_q_inject(trace, &mut obs, &one).map(|x| x.0)?;
         common_cov(cov, &stats);
+        if let [u32::MAX, l, c] = trace.extra.as_slice() {
+            if *l >= 1 && *c >= 1 {
+                for k in 0..=stats.own_ops.min(48) {
+                    let inj = vec![(k, Op::Resize(Some(*l), Some(*c)))];
+                    cov.hit("resize_positions_enumerated");
+                    let mut o2 = Obs09 { cov: &mut Coverage::default(), big };
+                    exec::run_q_inject(trace, &mut o2, &inj).map(|x| x.0).map_err(|mut v| {
+                        let mut t = trace.clone();
+                        t.extra = vec![1, k as u32, *l, *c];
+                        v.concrete = Some(Box::new(t));
+                        v
+                    })?;
+                }
+            }
+        }
         Ok(())
     }
     fn owns_panic(&self, _op: &str) -> bool {
